@@ -115,6 +115,7 @@ LeafForm(k, p, vp) ==
     [] k = "fle"      -> FieldCmp(p, "LESS_EQ", vp)
     [] k = "frange"   -> FieldRange(p, "LSQUARE", "int", "int", "RSQUARE")
     [] k = "fxrange"  -> FieldRange(p, "LCURLY", "word", "star", "RCURLY")
+    [] k = "fxirange" -> FieldRange(p, "LCURLY", "int", "int", "RCURLY")
     [] k = "fmrange"  -> FieldRange(p, "LSQUARE", "star", "float", "RSQUARE")
     [] k = "flist"    -> FieldList(p, 2)
     [] k = "flist3"   -> FieldList(p, 3)
